@@ -297,6 +297,12 @@ get_ws_frame(unsigned char *in_buffer, size_t buf_len,
 	if ((opcode >= 3 && opcode <= 7) || (opcode >= 0xb))
 		return ERROR_FRAME;
 
+	/* control frames must not be fragmented nor carry more than 125 bytes
+	 * https://www.rfc-editor.org/rfc/rfc6455#section-5.5
+	 */
+	if (opcode >= 0x8 && (!fin || payload_len > 125))
+		return ERROR_FRAME;
+
 	if (opcode <= 0x3 && !fin) {
 		return INCOMPLETE_FRAME;
 	}
